@@ -11,13 +11,13 @@ from framework import TranslateError  # noqa: F401
 
 PID = "C04"
 PROPS_FILE = "Props/C04.v"
-GEN_FILES = ["Gen/C04_sites.v"]
-MODEL_FILES = ["Model/C04_scatter.v"]
+GEN_FILES = ["Gen/C04_sites.v", "Gen/C04_numbers.v"]
+MODEL_FILES = ["Model/C04_scatter.v", "Model/C04_repr.v"]
 MODEL_INDEPENDENT_OF_GEN = True
 ALLOWED_AXIOMS: list[str] = []
 CASE_HEADER = (
     "From Coq Require Import ZArith QArith.\n"
-    "From LK Require Import Lib.QLib Model.C04_scatter.\n"
+    "From LK Require Import Lib.QLib Model.C04_scatter Model.C04_repr Gen.C04_numbers.\n"
     "Open Scope Q_scope."
 )
 SHARD = 25
@@ -27,8 +27,14 @@ TRUSTED = [
     "listed scorer functions, the `missing=` constant, and the shape of every `return` of a scorer entry point; fail-closed on unlisted scorer classes, "
     "unclassified receivers and non-constant policies",
     "that each numeric kernel (torch/BLAS/scipy products, neighbourhood selection, embedding look-ups, the `implicit` library) is pointwise is NOT proved: "
-    "it is observed by the metamorphic runs (permutation, two halves, repetition) evaluated inside Coq on exact rationals (tolerance 2^-20 relative for "
-    "single-precision scores across different evaluation paths, exact equality for repeated calls)",
+    "it is observed by the metamorphic runs (permutation, two halves, repetition, a fresh query object) evaluated inside Coq on exact rationals; tolerance of the "
+    "comparisons ACROSS evaluation paths (permuted list, halves against the full list: single-precision products computed by a different BLAS / torch kernel "
+    "when the list size changes, error ~ eps32 * sum|terms|, not relative to a result with cancellation): |x - y| <= 2^-16 * max(1, |x|, |y|) "
+    "(Model/C04_scatter.v `tol_meta`, `score_close`; the same formula in the Python oracle); exact equality for repeated calls, for the call made again "
+    "after the others, and for the fresh query object",
+    "extractor of ItemList.ids / ItemList.numbers (harness/translate/c04.py -> Gen/C04_numbers.v): accepts only the statement lists that Model/C04_repr.v "
+    "models (ast.unparse-normalised comparison), fail-closed otherwise; that pickle / to_df+from_df / to_arrow+from_arrow / copies keep identifiers and "
+    "numbers and drop the vocabulary as `transport1` says is compared per case (the numbers the list resolves to in the dataset vocabulary, `resolves_ok`)",
     "correspondence harness harness/props/c04.py + harness/c04_impl.py (construction of datasets, queries and candidate lists; exact float->rational conversion; "
     "reading the caller's query and candidate list back after every call: the history's (item, rating) pairs are compared inside Coq (`kept_ok`), the remaining "
     "fields, storage types, object identity and raw buffers by the harness, entering the Coq term as one flag per call)",
@@ -44,12 +50,21 @@ RULE = ("structured generator: one scorer x configuration per case (bias: entity
         "half-star dataset (optionally with users/items without data); 3-5 queries per case drawn from id / history / both / neither, known and unknown users, "
         "histories with unknown items or empty, histories stored as writable float32 / float64 NumPy arrays, Python lists, Arrow arrays or a torch tensor, optionally with a second "
         "(timestamp) field; candidate lists with unknown items, empty lists, extra fields, ordered lists, lists given by item number against the dataset vocabulary; "
+        "PROVENANCE of the candidate list (base / repeat / first half) and of the history as a generated dimension: built from identifiers, from item numbers or both "
+        "against the dataset vocabulary, against a catalogue that numbers the items differently (sorted or shuffled superset with the unknown items) or against the "
+        "vocabulary of a filtered subset, then 0-3 steps out of ids() / numbers() (caches), pickle, deepcopy, to_df/from_df, to_arrow/from_arrow with and without numbers, "
+        "copy constructor, clone, slice, take; a seventh call with a FRESH query object whose history and candidates are given plainly by identifier; "
         "integer or string identifiers; ONE query object per query is handed to the base call, the repeated call (same candidate list object too), the permuted call, "
         "the two halves and once more at the end, and after every call the query (user, history ids and every field, storage types, the supplied arrays bit for bit) "
         "and the candidate list are compared with what was supplied; non-trivial = the scorer trained, at least one call returned >= 2 finite scores and at "
         "least one candidate list contained an unknown item or the query an unknown user/history item; distinct = by hash of the case")
 
-TOL = Fraction(1, 2**20)
+# tolerance of the comparisons across evaluation paths (permuted / half lists against the full list): see Model/C04_scatter.v `score_close`
+TOL = Fraction(1, 2**16)
+
+
+def close(x, y):
+    return abs(x - y) <= TOL * max(1, abs(x), abs(y))
 
 
 def translate():
@@ -153,9 +168,31 @@ def gen_case(rng, tier):
         r2 = rng.fork(f"history-form-{len(queries)}")
         q["hist_form"] = r2.weighted([("f32", 4), ("f64", 3), ("list", 2), ("arrow", 2), ("torch", 1)])
         q["hist_extra"] = r2.chance(1, 3)
+        # how the candidate list and the history identify their items, and the journey they made (another fork)
+        r3 = rng.fork(f"provenance-{len(queries)}")
+        q["cand_prov"] = gen_prov(r3, by_number)
+        q["hist_prov"] = gen_prov(r3, False)
         queries.append(q)
+    # the other vocabularies lists are built against: a catalogue (superset, numbering differs) and a filtered subset
+    rc = rng.fork("catalogue")
+    others = [i for i in range(100, 180) if i not in iids]
+    cat = list(items) + UNKNOWN_ITEMS + UNKNOWN_HIST + rc.sample(others, rc.randint(1, 6)) + ([95] if rc.chance(1, 2) else [])
+    reorder = rc.chance(2, 3)
+    if not reorder:
+        cat = rc.shuffle(cat)
+    subset = sorted(rc.sample(list(items), rc.randint(1, len(items))))
     return {"users": users, "items": items, "ratings": ratings, "seed": rng.randint(0, 2**31 - 1),
-            "ids": rng.weighted([("int", 3), ("str", 1)]), "scorer": gen_scorer(rng), "queries": queries}
+            "ids": rng.weighted([("int", 3), ("str", 1)]), "scorer": gen_scorer(rng), "queries": queries,
+            "catalogue": {"ids": cat, "reorder": reorder}, "subset": subset}
+
+
+def gen_prov(r, by_number):
+    built = "own-nums" if by_number else r.weighted([("ids", 6), ("cat-ids", 3), ("cat-nums", 2), ("cat-both", 2), ("sub-ids", 1), ("own-ids", 1),
+                                                      ("own-nums", 1)])
+    n = r.weighted([(0, 4), (1, 4), (2, 3), (3, 1)])
+    steps = [r.weighted([("ids", 1), ("numbers", 3), ("pickle", 3), ("deepcopy", 1), ("frame", 3), ("arrow", 1), ("arrow-nums", 2), ("copy", 1),
+                         ("clone", 1), ("slice", 1), ("take", 1)]) for _ in range(n)]
+    return {"built": built, "steps": steps}
 
 
 def gen_cases(rng, tier):
@@ -218,13 +255,45 @@ def rest_kept(supplied, o):
     return strip(hs) == strip(ha) and all(ha["raw_intact"].values()) and len(ha["fields"].get("rating", [])) == len(hs["fields"].get("rating", []))
 
 
+def c_nums(ns):
+    return clist(ns, lambda n: "None" if n is None else f"(Some {int(n)}%nat)")
+
+
+TAGS = {"own": 0, "cat": 1, "sub": 2}
+
+
+def c_ilist(built, ids, obs):
+    """the identification state of a list built as `built` (Model/C04_repr.v `ilist`); vocabularies as the driver made them"""
+    if built == "ids":
+        return f"{{| il_ids := Some {clist(ids, cz)}; il_nums := None; il_vocab := None |}}"
+    which, how = built.split("-")
+    keys = obs["items"] if which == "own" else obs["vocab"][which]
+    pos = {i: k for k, i in enumerate(keys)}
+    cids = f"Some {clist(ids, cz)}" if how in ("ids", "both") else "None"
+    cnums = f"Some {c_nums([pos.get(i) for i in ids])}" if how in ("nums", "both") else "None"
+    return f"{{| il_ids := {cids}; il_nums := {cnums}; il_vocab := Some {{| v_tag := {TAGS[which]}; v_keys := {clist(keys, cz)} |}} |}}"
+
+
+def c_resolves(obs, built, journey, ids, resolved):
+    if isinstance(resolved, dict):
+        return "false"
+    own = f"{{| v_tag := 0; v_keys := {clist(obs['items'], cz)} |}}"
+    return f"resolves_ok foreign_rule_in_source {own} {c_ilist(built, ids, obs)} {clist(journey, lambda m: '(' + m + ')')} {c_nums(resolved)}"
+
+
 def coq_term(case, obs):
     if obs.get("train_error"):
         return None
     vocab = clist(obs["items"], cz)
     parts = []
     for q, c in zip(case["queries"], obs["calls"]):
-        if any(c[k]["error"] or c[k].get("type") != "ItemList" or (c[k]["scores"] is None and c[k]["ids"]) for k in KINDS):
+        # what each list handed to the scorer resolves to in the dataset vocabulary: the model's numbers_in after the same journey
+        for k, kids in (("base", q["items"]), ("half_a", q["items"][: q["split"]])):
+            if "built" in c[k]:
+                parts.append(c_resolves(obs, c[k]["built"], c[k]["journey"], kids, c[k]["resolved"]))
+        if c.get("hist_resolved") is not None and q["history"] is not None:
+            parts.append(c_resolves(obs, c["hist_built"], c["hist_journey"], [h[0] for h in q["history"]], c["hist_resolved"]))
+        if any(c[k]["error"] or c[k].get("type") != "ItemList" or (c[k]["scores"] is None and c[k]["ids"]) for k in KINDS + ("fresh",)):
             parts.append("false")
             continue
         ids = q["items"]
@@ -232,8 +301,8 @@ def coq_term(case, obs):
         h = q["split"]
         rec = (f"{{| c_cands := {clist(ids, cz)}; c_perm := {clist(perm, cz)}; c_half_a := {clist(ids[:h], cz)}; c_half_b := {clist(ids[h:], cz)}; "
                f"c_base := {c_obs(c['base'])}; c_repeat := {c_obs(c['repeat'])}; c_permuted := {c_obs(c['perm'])}; "
-               f"c_a := {c_obs(c['half_a'])}; c_b := {c_obs(c['half_b'])}; c_again := {c_obs(c['again'])} |}}")
-        parts.append(f"call_kept_ok tol32 {unknown_policy(case)} {vocab} {rec} {c_hist(c['supplied'])} "
+               f"c_a := {c_obs(c['half_a'])}; c_b := {c_obs(c['half_b'])}; c_again := {c_obs(c['again'])}; c_fresh := {c_obs(c['fresh'])} |}}")
+        parts.append(f"call_kept_ok tol_meta {unknown_policy(case)} {vocab} {rec} {c_hist(c['supplied'])} "
                      + clist([c[k] for k in KINDS], lambda o: f"({c_hist(o['query_after'])}, {'true' if rest_kept(c['supplied'], o) else 'false'})"))
     return "(" + ")\n && (".join(parts) + ")" if parts else "true"
 
@@ -289,20 +358,49 @@ def inputs_kept(name, case, q, c):
     return v
 
 
+def travel_tag(journey):
+    tags = {"STransport TPickle": "pickled", "STransport TFrame": "frame", "STransport TArrowIds": "arrow", "STransport TArrowNums": "arrow-nums"}
+    last = [tags[m] for m in journey if m in tags]
+    return last[-1] if last else ("copied" if "STransport TCopy" in journey else "as-built")
+
+
+def how(built, journey):
+    steps = [m.split()[-1] for m in journey]
+    return f"built as {built}" + (f", then {' -> '.join(steps)}" if steps else "")
+
+
 def oracle(case, obs):
     v = []
     name = case["scorer"]["scorer"]
     if obs.get("train_error"):
         return [(f"{name}:train-error:{obs['train_error']}", f"training raised {obs['train_error']}: {obs.get('msg')}")]
     known = set(obs["items"])
+    number = {i: k for k, i in enumerate(obs["items"])}
     pol = unknown_policy(case)
     for q, c in zip(case["queries"], obs["calls"]):
         ids = q["items"]
         expect = {"base": ids, "repeat": ids, "again": ids, "perm": [ids[j] for j in q["perm"]],
-                  "half_a": ids[: q["split"]], "half_b": ids[q["split"]:]}
+                  "half_a": ids[: q["split"]], "half_b": ids[q["split"]:], "fresh": ids}
         bad = False
-        for k in KINDS:
+        # every list handed to the scorer resolves, in the dataset vocabulary, to the numbers of ITS identifiers -- however it was
+        # built and whatever round trips it made
+        hb, hj = c.get("hist_built", "ids"), c.get("hist_journey", [])
+        if q["history"] is not None and c.get("hist_resolved") is not None:
+            want = [number.get(h[0]) for h in q["history"]]
+            if c["hist_resolved"] != want:
+                v.append((f"itemlist:resolves-other-items:history:{travel_tag(hj)}",
+                          f"a history list of items {[h[0] for h in q['history']]} ({how(hb, hj)}) resolves in the vocabulary {obs['items']} to the numbers "
+                          f"{c['hist_resolved']}; its identifiers have the numbers {want}"))
+        for k in KINDS + ("fresh",):
             o = c[k]
+            cb, cj = o.get("built", "ids"), o.get("journey", [])
+            if "resolved" in o and o["resolved"] != [number.get(i) for i in expect[k]]:
+                v.append((f"itemlist:resolves-other-items:candidates:{travel_tag(cj)}",
+                          f"a candidate list of items {expect[k]} ({how(cb, cj)}) resolves in the vocabulary {obs['items']} to the numbers "
+                          f"{o['resolved']}; its identifiers have the numbers {[number.get(i) for i in expect[k]]}"))
+            if "unreadable" not in o["cand_before"] and o["cand_before"]["ids"] != expect[k]:
+                v.append((f"{name}:candidates-not-as-constructed:{travel_tag(cj)}",
+                          f"{describe(case, q)}: a candidate list of items {expect[k]} ({how(cb, cj)}) reads {o['cand_before']} before the call"))
             if o["error"]:
                 v.append((f"{name}:raised:{o['error']}", f"{describe(case, q)} items={expect[k]}: raised {o['error']} ({o['msg']})"))
                 bad = True
@@ -342,16 +440,33 @@ def oracle(case, obs):
                     v.append((f"{name}:unknown-item-scored", f"{describe(case, q)}: unknown item {i} received score {float(fparse(s))}"))
                 if pol == "UBaseline" and s is None:
                     v.append((f"{name}:unknown-item-no-baseline", f"{describe(case, q)}: unknown item {i} received no baseline score"))
-        for k in ("repeat", "again"):
-            if c[k]["scores"] != b["scores"]:
-                v.append((f"{name}:repeat-differs", f"{describe(case, q)}: calling again ({k}) returned different scores: {c[k]['scores']} vs {b['scores']}"))
+        cb, cj = b.get("built", "ids"), b.get("journey", [])
+        show = lambda sc: [None if x is None else float(fparse(x)) for x in sc]
+        if c["repeat"]["scores"] != b["scores"]:
+            v.append((f"{name}:repeat-differs", f"{describe(case, q)}: calling again (repeat) returned different scores: {c['repeat']['scores']} vs {b['scores']}"))
+        elif c["again"]["scores"] != b["scores"] and (cb != "ids" or cj):
+            # same query object, same items in the same order: the base call got the list in another representation
+            v.append((f"{name}:depends-on-representation:candidates",
+                      f"{describe(case, q)}: the candidate list {ids} {how(cb, cj)} is scored {show(b['scores'])} (twice), the same items given plainly by "
+                      f"identifier {show(c['again']['scores'])}"))
+        elif c["again"]["scores"] != b["scores"]:
+            v.append((f"{name}:repeat-differs", f"{describe(case, q)}: calling again (again) returned different scores: {c['again']['scores']} vs {b['scores']}"))
+        if c["fresh"]["scores"] != c["again"]["scores"]:
+            hb, hj = c.get("hist_built", "ids"), c.get("hist_journey", [])
+            if q["history"] is not None and (hb != "ids" or hj):
+                v.append((f"{name}:depends-on-representation:history",
+                          f"{describe(case, q)}: with the history {how(hb, hj)} the items {ids} are scored {show(c['again']['scores'])}, with the same history "
+                          f"given plainly by identifier {show(c['fresh']['scores'])}"))
+            else:
+                v.append((f"{name}:fresh-query-differs", f"{describe(case, q)}: a fresh query object of the same content is scored {show(c['fresh']['scores'])} "
+                          f"on the items {ids}, the query object used for the earlier calls {show(c['again']['scores'])}"))
         for k in ("perm", "half_a", "half_b"):
             for i, s in zip(c[k]["ids"], c[k]["scores"] or []):
                 w = base[i]
                 if (s is None) != (w is None):
                     v.append((f"{name}:depends-on-companions:{k}", f"{describe(case, q)}: item {i} scored {s} in the {k} list but {w} in the full list {ids}"))
                     break
-                if s is not None and abs(fparse(s) - fparse(w)) > TOL * max(1, abs(fparse(w))):
+                if s is not None and not close(fparse(s), fparse(w)):
                     v.append((f"{name}:depends-on-companions:{k}", f"{describe(case, q)}: item {i} scored {float(fparse(s))} in the {k} list {c[k]['ids']} but {float(fparse(w))} in the full list {ids}"))
                     break
     seen, out = set(), []
@@ -406,6 +521,17 @@ def counters(case, obs):
         if q.get("by_number") and q["items"]:
             yield "candidates-by-number"
         b = c["base"]
+        yield "candidates-built=" + b.get("built", "ids")
+        yield "candidates-arrive=" + travel_tag(b.get("journey", []))
+        if q["history"]:
+            yield "history-built=" + c.get("hist_built", "ids")
+            yield "history-arrives=" + travel_tag(c.get("hist_journey", []))
+        for kind, bb, jj, ii in (("candidates", b.get("built", "ids"), b.get("journey", []), q["items"]),
+                                 ("history", c.get("hist_built", "ids"), c.get("hist_journey", []), [h[0] for h in q["history"] or []])):
+            # the state the lead's seeded change C04-6 needs: numbers of ANOTHER numbering travelling without their vocabulary
+            if ii and bb.split("-")[0] in ("cat", "sub") and travel_tag(jj) in ("pickled", "frame", "arrow-nums"):
+                yield kind + "-foreign-numbers-without-vocabulary"
+        b = c["base"]
         if not b["error"] and b.get("scores"):
             yield "scored-items=" + str(min(5, sum(1 for x in b["scores"] if x is not None)))
 
@@ -417,7 +543,18 @@ def sample(case, obs):
                      "first_query": q}, "observation": o}
 
 
+SHRINK_CAP = 5
+_SHRUNK: dict = {}
+
+
 def shrink(case, fails):
+    try:
+        keys = tuple(sorted({k for k, _ in oracle(case, run_impl(case))}))
+    except Exception:
+        keys = ("?",)
+    if keys in _SHRUNK or len(_SHRUNK) >= SHRINK_CAP:        # one shrink per set of keys, at most SHRINK_CAP per run
+        return case
+    _SHRUNK[keys] = 1
     c = dict(case)
     c["queries"] = common.shrink_list(case["queries"], lambda xs: bool(xs) and fails({**c, "queries": xs}), 12)
     c["ratings"] = common.shrink_list(case["ratings"], lambda xs: len(xs) >= 2 and fails({**c, "ratings": xs}), 30)
